@@ -391,9 +391,7 @@ theorem createPlan_wf {inp vals : Input} {dt : TypeArg ⊕ DType} {n : Nat} (hwf
       · simp at h
       · split at h
         · simp at h
-        · simp at h; rw [← h.2.2]
-          simp only [Input.WF, Bool.and_eq_true] at hwf
-          simp [Input.WF, hwf.1]
+        · simp at h; rw [← h.2.2]; rfl
   | ndarray dt' shape data =>
     simp only [createPlan] at h
     split at h
@@ -485,7 +483,7 @@ theorem step_trans {st : State} {op : Op} (hwf : op.WF = true) : Trans st (step 
     | val inp =>
       simp only [step, lift, setitem]
       have hdw : inp.asListData.WF = true := by
-        cases inp <;> simp_all [Input.asListData, Input.WF, Input.asElem, PyVal.WF, Op.WF]
+        cases inp <;> simp_all [Input.asListData, Input.WF, Input.asElem, Op.WF]
       split
       · exact createProperty_trans hdw
       · split
